@@ -258,6 +258,21 @@ def main(argv=None):
             elif open(os.path.join(d, "out.ode")).read() != open(api).read():
                 rep.violation("cellml2ode writes a file that differs from cellml_to_gotran(...).save(...)",
                               {"kind": "direct", "command": ["python", "-m", "gotranx", "cellml2ode", "noble_1962.cellml", "-o", "out.ode"]})
+            # the output name is honoured as given: other extensions, no extension, a dotted name, a sub-directory, and no -o at all
+            os.makedirs(os.path.join(d, "sub"))
+            for oname in ("exported.txt", "model.v2", "noext", "UPPER.ODE", os.path.join("sub", "deep.ode"), None):
+                before = listing(d)
+                args = ["cellml2ode", src] + (["-o", oname] if oname is not None else [])
+                rc, so, se = run_cli(args, d)
+                new = sorted(f for f in listing(d) if f not in before)
+                want = oname if oname is not None else "noble_1962.ode"
+                rep.case(key=("cellml2ode", str(oname)), nontrivial=True)
+                ok = rc == 0 and new == [want] and open(os.path.join(d, want)).read() == open(api).read()
+                if not ok:
+                    rep.violation(f"cellml2ode {'-o ' + oname if oname else '(no -o)'}: exit status {rc}, files written {new}, expected exactly {want!r} with the text the API saves",
+                                  {"kind": "direct", "command": ["python", "-m", "gotranx"] + ["cellml2ode", "noble_1962.cellml"] + (["-o", oname] if oname else [])})
+                for f in new:
+                    os.remove(os.path.join(d, f))
     finally:
         shutil.rmtree(root, ignore_errors=True)
     return rep.finish(
@@ -267,7 +282,7 @@ def main(argv=None):
              "absolute, suffix, configuration via pyproject.toml in the working directory or --config with empty lists and zero); the working "
              "directory differs from the model's directory; non-trivial = at least one option or a configuration; invalid (syntax, incomplete, "
              "undefined symbol, and - accepted by the loader, refused at generation - cyclic, reserved name) and missing models for both commands, with and "
-             "without a file already present under the output name; cellml2ode on the shipped noble_1962 model",
+             "without a file already present under the output name; cellml2ode on the shipped noble_1962 model with six output names (other extension, dotted, none, upper case, sub-directory, default)",
         trusted_base=["Coq 8.16.1 kernel (the Cli.v model is thin)", "typer, the process exit status and the file system are observed, not modelled"],
         assumptions=["clang-format is not installed in this sandbox: ode2c is run with --format none (or c.format = none in the configuration), convert to C is not exercised"],
     )
